@@ -394,6 +394,25 @@ def run_dial_check(pid, tier, groups, assumptions=(), level="model_checking", ru
     return (1 if violations else 0), cov
 
 
+# ---- C17, client side ----------------------------------------------------------------
+
+def c17_client(tier):
+    """Client side of the handshake boundary (C17): frames glued to the 101 response, every split offset of
+    'response + frames' across transport reads x Dialer.ReadBufferSize.  Returns (violation replay paths, coverage);
+    writes no evidence and prints nothing (the caller owns the C17 verdict)."""
+    q = tier == "quick"
+    cfg = "MC_C17c_quick.cfg" if q else "MC_C17c_thorough.cfg"
+    viol, cov = run_dial_check("C17", tier, [dict(mc=("MC_C17c.tla", cfg), max_progs=None,
+                                                  opts=dict(allsplit="2" if q else "3", splitstep=7 if q else 1))],
+                               emit=False,
+                               rule="client side: abstract programs = initial states of MC_C17c (Dialer.ReadBufferSize x glued frame "
+                                    "stream x ws/wss); each is executed once unsplit and once per split offset of 'response + frames' "
+                                    "(two transport segments; thorough: also three segments around/behind the end of the header "
+                                    "block); WSDial!RxOK demands the data messages of the glued frames, complete and in order, then "
+                                    "the end of the stream")
+    return viol, cov
+
+
 # ---- header-value batches (family "hsfuzz") ------------------------------------
 
 HS_CLASSES = ["alpha", "digit", "tsym", "comma", "semi", "eq", "dquote", "bslash", "ws", "sep", "obs"]
